@@ -1,13 +1,21 @@
 import Lean.Data.Json
 import Eliot.Conc.Handover
+import Eliot.Conc.HandoverFix
 import Eliot.Generated.Handover
-/-! Line-protocol driver for the hand-over model (C12 concurrent clause; used by harness/props/_handover.py).
+/-! Line-protocol driver for the hand-over models (C12 concurrent clause; used by harness/props/_handover.py).
 in : {"pre":[buffered msg ids],"prog":[[msg ids] per logger],"dests":[dest ids],"sched":["a" | ["l",i] ...]}
-out: {"delivered":[[dest,[msgs]]],"buf":[msgs],"finished":b,"lost":[msgs of prog that some dest never got]}
-The adder's statements are those of the regenerated skeleton `Generated.handover`. -/
-open Lean Eliot.Conc Eliot.Conc.Handover
+out: {"delivered":[[dest,[msgs]]],"buf":[msgs],"finished":b,"lost":[msgs of prog that some dest never got],"model":"fixed"|"pinned"}
+If the regenerated skeleton `Generated.handover` is the repaired shape the model `HandoverFix` is run,
+otherwise the old model `Handover`, whose adder interprets the regenerated statement list. -/
+open Lean Eliot.Conc
 
-def parseTid (j : Json) : Except String Tid :=
+def parseOld (j : Json) : Except String Handover.Tid :=
+  match j with
+  | .str "a" => pure .adder
+  | .arr #[.str "l", n] => do pure (.logger (← n.getNat?))
+  | _ => throw s!"bad thread id {j.compress}"
+
+def parseNew (j : Json) : Except String HandoverFix.Tid :=
   match j with
   | .str "a" => pure .adder
   | .arr #[.str "l", n] => do pure (.logger (← n.getNat?))
@@ -19,12 +27,23 @@ def answer (line : String) : Json :=
     let pre ← j.getObjValAs? (List Nat) "pre"
     let prog ← j.getObjValAs? (List (List Nat)) "prog"
     let dests ← j.getObjValAs? (List Nat) "dests"
-    let sched ← (← j.getObjValAs? (List Json) "sched").mapM parseTid
-    let s := run (init Eliot.Generated.handover pre (fun i => prog.getD i []) dests) sched
+    let schedJ ← j.getObjValAs? (List Json) "sched"
     let msgs := prog.flatten
-    pure <| Json.mkObj [("delivered", Json.arr (dests.map (fun d => Json.arr #[toJson d, toJson (s.delivered d)])).toArray),
-      ("buf", toJson s.buf), ("finished", toJson (finished s prog.length)),
-      ("lost", toJson (msgs.filter (fun m => dests.any (fun d => !(s.delivered d).contains m))))]
+    let progF : Nat → List Nat := fun i => prog.getD i []
+    if Eliot.Generated.handover = Handover.fixedSkel then
+      let sched ← schedJ.mapM parseNew
+      let n := prog.length
+      let s := HandoverFix.run n (HandoverFix.init pre progF dests) sched
+      let fin := (List.range n).all (fun i => (s.logPending i).isEmpty && s.logPc i == .idle) && s.addPc == .done
+      pure <| Json.mkObj [("delivered", Json.arr (dests.map (fun d => Json.arr #[toJson d, toJson (s.delivered d)])).toArray),
+        ("buf", toJson s.buf), ("finished", toJson fin), ("model", "fixed"),
+        ("lost", toJson (msgs.filter (fun m => dests.any (fun d => !(s.delivered d).contains m))))]
+    else
+      let sched ← schedJ.mapM parseOld
+      let s := Handover.run (Handover.init Eliot.Generated.handover pre progF dests) sched
+      pure <| Json.mkObj [("delivered", Json.arr (dests.map (fun d => Json.arr #[toJson d, toJson (s.delivered d)])).toArray),
+        ("buf", toJson s.buf), ("finished", toJson (Handover.finished s prog.length)), ("model", "pinned"),
+        ("lost", toJson (msgs.filter (fun m => dests.any (fun d => !(s.delivered d).contains m))))]
   match r with
   | .ok o => o
   | .error e => Json.mkObj [("bad", toJson e)]
